@@ -483,6 +483,11 @@ def check_open(mir_text, src, label, entry, readonly):
                 okf, _ = prove(ex, e.guard, acc, same(have, want))
             if not okf:
                 v_r3.append({"field": k, "have": repr(have)[:120], "why": "value returned by an accepting reopen differs from the reopen contract"})
+        fl_ = got.get("flag")
+        src_fl = eff_by_result(effs, fl_)
+        tags_ = sorted(getattr(a_, "tag", "?").split("::")[-1] for a_ in src_fl["args"]) if src_fl is not None and "BitOr" in src_fl["func"] else []
+        if tags_ != ["MMAP", "ON_DISK"]:
+            v_r3.append({"field": "flag", "have": tags_, "why": "Memory.flag of a reopened file-backed arena is not ON_DISK | MMAP (is_map_file / is_ondisk would misreport)"})
         hp = got.get("header_ptr")
         okh = False
         if isinstance(hp, Enum) and hp.discr == 0 and 0 in hp.variants:
